@@ -332,6 +332,11 @@ class Model:
             self.call_named(node[1], fr)
         elif k == "mod":
             self.modifier(node, fr)
+        elif k == "probe_exec":
+            # `7`Ė : run the string "7" as a program on the current (main) stack
+            if not fr.is_main:
+                raise Skip("exec-probe-in-inner-scope")
+            self.push(fr, 7)
         elif k == "brk":
             if parent in ("for", "while"):
                 raise _Break()
